@@ -9,6 +9,7 @@ been logged; `judge()` compares a reply text with that prediction and returns
 violations tagged with the property whose clause is broken.
 """
 import inspect
+import copy
 import json
 
 from mc import gen
@@ -194,6 +195,27 @@ class World(object):
             log.append(("badkeys", [], {}))
             return {(1, 2): 3}
 
+        def mutate(*a, **k):
+            # a callable that modifies the containers it receives (legitimate: they are its own copies of the request's parameters)
+            log.append(("mutate", [copy.deepcopy(x) for x in a], copy.deepcopy(k)))
+            sizes = []
+            for x in list(a) + list(k.values()):
+                if isinstance(x, list):
+                    sizes.append(len(x))
+                    x.append("added-by-the-callee")
+                elif isinstance(x, dict):
+                    sizes.append(len(x))
+                    x["added-by-the-callee"] = True
+                else:
+                    inner = getattr(x, "__dict__", None)
+                    sizes.append(sorted(inner) if inner is not None else None)
+                    if inner is not None:
+                        for v in inner.values():
+                            if isinstance(v, list):
+                                v.append("added-by-the-callee")
+            return sizes
+
+        reg("mutate", mutate)
         reg("badkeys", badkeys)
         reg("cyclic", cyclic)
         reg("deepret", deepret)
